@@ -38,8 +38,10 @@ class Built:
 
 
 def arg_pattern(rng, depth=1, meta=0.4, notation=0.3, syms=SYMS):
-    e = rp.rand_term(rng, rng.randint(0, depth), meta=rng.random() < meta, notation=notation, substs=rng.random() < 0.25, syms=syms, constrained=0.0,
-                     evs=(0, 1, 2), svs=(0, 1), mvs=(0, 1, 2))
+    # a few arguments are metavariables that declare variables fresh (plugging them into a schema with a pending substitution on that
+    # variable is where generator and checker have to agree on dropping the substitution)
+    e = rp.rand_term(rng, rng.randint(0, depth), meta=rng.random() < meta, notation=notation, substs=rng.random() < 0.25, syms=syms,
+                     constrained=0.25 if rng.random() < 0.3 else 0.0, evs=(0, 1, 2), svs=(0, 1), mvs=(0, 1, 2))
     # mu must be positive for the machine; the toolkit does not check -> keep generated arguments well-formed
     if not _wf(e):
         return rp.fold(tb.sy(rng.choice(syms)), rng, 0.0), tb.sy('a') if False else None
@@ -155,6 +157,15 @@ def random_module(rng: random.Random, max_claims=6, with_imports=True, syms=SYMS
                 add(mod.prop1(), 'prop1')
             else:
                 add(mod.prop3(), 'prop3')
+        except AssertionError:
+            pass
+    if rng.random() < 0.2:
+        try:
+            plug = P.MetaVar(rng.choice((0, 1, 2)), e_fresh=tuple(P.EVar(i) for i in (0, 1) if rng.random() < 0.6)) if rng.random() < 0.6 else p_()
+            add(mod.dynamic_inst(mod.exists_quantifier(), {0: plug}), 'dynamic_inst(exists_quantifier)')
+            tags.add('quantifier')
+            if isinstance(plug, P.MetaVar) and plug.e_fresh:
+                tags.add('quantifier_with_fresh_declaring_plug')
         except AssertionError:
             pass
     # a schema instantiated through a map whose keys are inserted in shuffled order
